@@ -66,6 +66,7 @@ import (
 	"sort"
 	"strconv"
 	"strings"
+	"sync"
 	"time"
 
 	"github.com/0chain/common/core/util"
@@ -150,25 +151,26 @@ type savedRound struct {
 }
 
 type storeRun struct {
-	prop     string // "C03" | "C04" | "C05" | "" (all)
-	dir      string
-	pndb     *util.PNodeDB
-	tries    map[int]*trieH
-	version  int64
-	saved    []savedRound
-	pruned   int64 // highest version of a dead-node record that a prune was entitled to drop (records < v); roots saved at versions below it are no longer retained. Stronger than the property's "version >= v": a root at version r only depends on records of versions > r staying unpruned
-	roundOps []string
-	light    bool // op `light`: no per-operation frame/view re-reads after ins/del (large histories)
-	sub      bool // replaying a round on a cloned store: no output checks, no nested enumeration
-	fails    []string
-	tags     map[string]bool
-	opIdx    int
-	opText   string
-	ntMerges int
-	ntSaves  int
-	ntDead   int
-	ntPrune  int
-	bigDead  int
+	prop        string // "C03" | "C04" | "C05" | "" (all)
+	dir         string
+	pndb        *util.PNodeDB
+	tries       map[int]*trieH
+	version     int64
+	saved       []savedRound
+	pruned      int64 // highest version of a dead-node record that a prune was entitled to drop (records < v); roots saved at versions below it are no longer retained. Stronger than the property's "version >= v": a root at version r only depends on records of versions > r staying unpruned
+	roundOps    []string
+	noSaveCrash bool // op `light 2`
+	light       bool // op `light`: no per-operation frame/view re-reads after ins/del (large histories)
+	sub         bool // replaying a round on a cloned store: no output checks, no nested enumeration
+	fails       []string
+	tags        map[string]bool
+	opIdx       int
+	opText      string
+	ntMerges    int
+	ntSaves     int
+	ntDead      int
+	ntPrune     int
+	bigDead     int
 }
 
 func cloneMap(m map[string][]byte) map[string][]byte {
@@ -596,6 +598,55 @@ func adversarialOrder(changes []*util.NodeChange) bool {
 	return true
 }
 
+// leanConst reads a numeric constant from lean/Verif/Gen/Constants.lean (regenerated from the Go source by bin/check
+// before every run; the harness runs with the framework root as working directory; VERIF_CONSTANTS overrides the path).
+// A changed constant re-parameterises the boundary cases.
+var leanConsts map[string]int
+var leanConstsOnce sync.Once
+
+func leanConst(name string, def int) int {
+	leanConstsOnce.Do(func() {
+		leanConsts = map[string]int{}
+		path := os.Getenv("VERIF_CONSTANTS")
+		if path == "" {
+			path = "lean/Verif/Gen/Constants.lean"
+		}
+		b, err := os.ReadFile(path)
+		if err != nil {
+			return
+		}
+		for _, ln := range strings.Split(string(b), "\n") {
+			var n string
+			var v int
+			if _, err := fmt.Sscanf(ln, "def %s : Nat := %d", &n, &v); err == nil {
+				leanConsts[n] = v
+			}
+		}
+	})
+	if v, ok := leanConsts[name]; ok && v > 0 {
+		return v
+	}
+	return def
+}
+
+// writeSizes: the number of entries of every durable write of a logged stretch, e.g. "1000+1001+2" ("-": no write)
+func writeSizes(recs []grocksdb.WriteRecord) string {
+	if len(recs) == 0 {
+		return "-"
+	}
+	var parts []string
+	for _, r := range recs {
+		parts = append(parts, strconv.Itoa(len(r.Ops)))
+	}
+	return strings.Join(parts, "+")
+}
+
+// bulkNext: one step of the bulk generator (64-bit LCG, shared with suite c17 and the model drivers)
+func bulkNext(x uint64) (uint64, string, []byte) {
+	x = x*6364136223846793005 + 1442695040888963407
+	return x, fmt.Sprintf("%08x", uint32(x>>32)), []byte{byte(0x41 + (x>>8)%26), byte(x)}
+}
+
 // ---- operations -------------------------------------------------------------------------------------------
 
 func (s *storeRun) openBlock(version int64, kind string) *trieH {
@@ -731,7 +782,12 @@ func (s *storeRun) exec(op string) string {
 	}
 	switch f[0] {
 	case "light":
+		// light: no per-operation frame/view re-reads after ins/del/bulk (large histories);
+		// light 2: additionally no crash enumeration at saves (large prune histories; saves are enumerated elsewhere)
 		s.light = true
+		if len(f) > 1 && f[1] == "2" {
+			s.noSaveCrash = true
+		}
 		return "ok"
 	case "round":
 		s.version = int64(atoi(f[1]))
@@ -957,6 +1013,45 @@ func (s *storeRun) exec(op string) string {
 		}
 		return out
 
+	case "bulk":
+		// bulk <id> <n1> <seed1> [<n2> <seed2> ...]: n Inserts of pseudo-random 8-nibble paths / 2-byte values per pair
+		// (the 64-bit generator of suite c17, the same on the model side); the same seed re-creates the same keys and values
+		t := trie(f[1])
+		if t == nil || len(f) < 4 || len(f)%2 != 0 {
+			return "bad-op"
+		}
+		s.roundOps = append(s.roundOps, op)
+		out := guard(func() string {
+			for i := 2; i+1 < len(f); i += 2 {
+				x, err := strconv.ParseUint(f[i+1], 10, 64)
+				if err != nil {
+					panic("bad seed in op: " + op)
+				}
+				for j, n := 0, atoi(f[i]); j < n; j++ {
+					var path string
+					var val []byte
+					x, path, val = bulkNext(x)
+					if _, err := t.mpt.Insert([]byte(path), mkVal(append([]byte(nil), val...))); err != nil {
+						return errKind(err)
+					}
+					t.content[path] = val
+				}
+			}
+			return "ok " + rootStr(t.mpt.GetRoot())
+		})
+		if !strings.HasPrefix(out, "ok") {
+			s.fail("C03", "bulk insert into trie %d failed: %s", t.id, out)
+		}
+		t.muts++
+		s.tags["bulk"] = true
+		if !s.sub && !s.light {
+			s.checkView(t, "after bulk insert")
+			s.frame(map[int]bool{t.id: true}, t.id)
+		} else {
+			t.snap = ""
+		}
+		return out
+
 	case "get":
 		t := trie(f[1])
 		if t == nil {
@@ -998,6 +1093,11 @@ func (s *storeRun) exec(op string) string {
 		pSnap := p.snap
 		newRoot, changes, deletes, startRoot := c.mpt.GetChanges()
 		overlap := adversarialOrder(changes)
+		for bs, d := leanConst("batchSize", 256), 0; d < 5; d++ {
+			if b := []int{bs - 1, bs, bs + 1, 2 * bs, 2*bs + 1}[d]; len(changes) == b {
+				s.tags[fmt.Sprintf("merge-changes=batchSize%+d", b-bs)] = true
+			}
+		}
 		if os.Getenv("VERIF_MERGE_MAPORDER") != "" {
 			overlap = false // diagnostic: let MergeMPTChanges use Go's map order also in the overlap case
 		}
@@ -1267,18 +1367,39 @@ func (s *storeRun) exec(op string) string {
 			s.opText = op
 			s.tags["crash-save"] = true
 		}
+		nChanges, nDead := t.mpt.GetChangeCount(), len(t.mpt.GetDeletes())
+		w0 := grocksdb.FakeWrites(s.dir)
+		grocksdb.FakeLog(s.dir, true)
 		if err := doSave(t, s.pndb, s.version); err != nil {
+			grocksdb.FakeLog(s.dir, false)
 			s.fail("C04", "save failed: %v", err)
 			return errKind(err)
 		}
+		saveSizes := writeSizes(grocksdb.FakeLog(s.dir, false))
+		saveWrites := grocksdb.FakeWrites(s.dir) - w0
+		// sizes at the boundaries of the batch constants of the code (read from lean/Verif/Gen/Constants.lean)
+		bs, mp := leanConst("batchSize", 256), leanConst("maxPruneNodes", 1000)
+		for _, b := range []int{bs - 1, bs, bs + 1, 2 * bs, 2*bs + 1} {
+			if nChanges == b {
+				s.tags[fmt.Sprintf("save-changes=batchSize%+d", b-bs)] = true
+			}
+		}
+		for _, b := range []int{mp - 1, mp, mp + 1, 2*mp + 1} {
+			if nDead == b {
+				s.tags[fmt.Sprintf("save-dead=maxPruneNodes%+d", b-mp)] = true
+			}
+		}
 		s.recordSaved(t)
 		s.ntSaves++
-		if !s.sub {
+		if !s.sub && s.noSaveCrash {
+			s.checkRetained(s.dir, len(s.saved), "C04", "after save")
+			grocksdb.FakeReset(pre)
+		} else if !s.sub {
 			s.checkRetained(s.dir, len(s.saved), "C04", "after save")
 			// crash enumeration over the save's write stream [batch of new nodes, dead-node record], on clones of
 			// the pre-save store: crash, re-open, earlier roots intact, re-execute the round, re-save => same store
 			def, dn := grocksdb.FakeSnapshot(s.dir, "default"), grocksdb.FakeSnapshot(s.dir, "dead_nodes")
-			for k := int64(0); k < 2; k++ {
+			for k := int64(0); k < saveWrites; k++ {
 				cd := freshDir("c04crash")
 				grocksdb.FakeClone(pre, cd)
 				grocksdb.FakeSetBudget(cd, k)
@@ -1307,7 +1428,7 @@ func (s *storeRun) exec(op string) string {
 			grocksdb.FakeReset(pre)
 		}
 		// the saved trie stays usable but the round is over for the generator
-		return "ok " + rootStr(t.mpt.GetRoot()) + " n=" + strconv.Itoa(len(grocksdb.FakeSnapshot(s.dir, "default")))
+		return "ok " + rootStr(t.mpt.GetRoot()) + " n=" + strconv.Itoa(len(grocksdb.FakeSnapshot(s.dir, "default"))) + " w=" + saveSizes
 
 	case "reopen":
 		i := atoi(f[1])
@@ -1360,18 +1481,22 @@ func (s *storeRun) exec(op string) string {
 		}
 		pre := freshDir("c05pre")
 		grocksdb.FakeClone(s.dir, pre)
+		mid := ""
 		if f[0] == "crash-prune" {
 			grocksdb.FakeSetBudget(s.dir, int64(atoi(f[2])))
 			_ = s.pndb.PruneBelowVersion(context.Background(), v)
 			grocksdb.FakeSetBudget(s.dir, -1)
 			s.pndb = openPNDB(s.dir)
+			mid = fmt.Sprintf(" mid=%d", len(grocksdb.FakeSnapshot(s.dir, "default")))
 			s.checkPruned(s.dir, before, allowed, recsBefore, v, false, "after the crashed prune")
 			s.tags["crash-prune"] = true
 		}
 		w0 := grocksdb.FakeWrites(s.dir)
+		grocksdb.FakeLog(s.dir, true)
 		if err := s.pndb.PruneBelowVersion(context.Background(), v); err != nil {
 			s.fail("C05", "prune failed: %v", err)
 		}
+		pruneSizes := writeSizes(grocksdb.FakeLog(s.dir, false))
 		writes := grocksdb.FakeWrites(s.dir) - w0
 		s.checkPruned(s.dir, before, allowed, recsBefore, v, true, "after prune")
 		if len(allowed) > 0 {
@@ -1404,7 +1529,7 @@ func (s *storeRun) exec(op string) string {
 			}
 		}
 		grocksdb.FakeReset(pre)
-		return "ok n=" + strconv.Itoa(len(grocksdb.FakeSnapshot(s.dir, "default")))
+		return "ok n=" + strconv.Itoa(len(grocksdb.FakeSnapshot(s.dir, "default"))) + " w=" + pruneSizes + mid
 
 	case "pstore":
 		return pstoreLine(s.dir)
